@@ -178,3 +178,32 @@ pub open spec fn nist_dkp_first(valid: spec_fn(Bytes) -> bool, nh: nat, suite: B
     else { nist_dkp_first(valid, nh, suite, ikm, nsk, bitmask, c + 1) }
 }
 }
+
+verus!{
+// ---- §5.2 ContextS.Seal / ContextR.Open as transition functions on the abstract context,
+// including the implementation's message-limit behaviour (refuse forever once 2^64 messages were processed) ----
+pub open spec fn ctx_seal_spec<I: ?Sized>(v: CtxView, aad: Bytes, pt: Bytes) -> (CtxView, Result<(Bytes, Bytes), crate::HpkeError>) {
+    if v.overflowed { (v, Err(crate::HpkeError::MessageLimitReached)) }
+    else {
+        match aead_seal_spec::<I>(v.key, compute_nonce_spec(v.base_nonce, v.seq), aad, pt) {
+            None => (v, Err(crate::HpkeError::SealError)),
+            Some(c) => (ctx_advance(v), Ok(c)),
+        }
+    }
+}
+pub open spec fn ctx_open_spec<I: ?Sized>(v: CtxView, aad: Bytes, ct: Bytes, tag: Bytes) -> (CtxView, Result<Bytes, crate::HpkeError>) {
+    if v.overflowed { (v, Err(crate::HpkeError::MessageLimitReached)) }
+    else {
+        match aead_open_spec::<I>(v.key, compute_nonce_spec(v.base_nonce, v.seq), aad, ct, tag) {
+            None => (v, Err(crate::HpkeError::OpenError)),
+            Some(p) => (ctx_advance(v), Ok(p)),
+        }
+    }
+}
+// the allocating ContextR.Open: tag = last Nt bytes, message = the rest; shorter inputs are OpenErrors
+pub open spec fn ctx_open_alloc_spec<I: ?Sized>(v: CtxView, aad: Bytes, c: Bytes, nt: nat) -> (CtxView, Result<Bytes, crate::HpkeError>) {
+    if v.overflowed { (v, Err(crate::HpkeError::MessageLimitReached)) }
+    else if c.len() < nt { (v, Err(crate::HpkeError::OpenError)) }
+    else { ctx_open_spec::<I>(v, aad, c.subrange(0, c.len() - nt), c.subrange(c.len() - nt, c.len() as int)) }
+}
+}
